@@ -248,6 +248,16 @@ func finishRun(rcx *RunCtx) {
 	case "budget":
 		rcx.Find("C16", "livelock", "budget", "step budget exhausted: %v", r.Blocked)
 	}
+	// Properties whose statement is about what a call returns are violated by
+	// a call that never returns; their checks report that under their own id.
+	if what := completionOwned[rcx.Prop]; what != "" && (r.Outcome == "deadlock" || r.Outcome == "budget") {
+		rcx.Find(rcx.Prop, "did-not-complete", r.Outcome, "%s: the run ended in %s (%s): %v", what, r.Outcome, rcx.Label, r.Blocked)
+	}
+}
+
+var completionOwned = map[string]string{
+	"C03": "a client File operation must give the caller what the server-side File returned",
+	"C11": "ReadAt/WriteAt must return the count and error of the chunks issued",
 }
 
 func init() {
@@ -280,11 +290,11 @@ func init() {
 				runPair(rcx, pairCatalogue[rcx.Index])
 				return
 			}
-			runRandomWorkload(rcx, workloadOpts{Flush: true})
+			runRandomWorkload(rcx, workloadOpts{Flush: true, BadFrames: rcx.Index%2 == 1})
 		},
 		Directed: func(string) int { return len(pairCatalogue) },
 		Quick:    24000, Thorough: 400000, QuickSecs: 60, ThorSecs: 1500,
-		Rule: "directed: same pair catalogue as C07 (A parked in backend, B issued): B must be answered while A is parked unless the File contract orders it after A; random: pipelined peers, adversarial tags, small reply pipe with slow reader. Wire monitor on the reply stream: every frame contiguous (single writer task), exactly one reply per decodable request with free tag, same tag, matching R-type or Rlerror, no unsolicited reply. Non-trivial/distinct as C07.",
+		Rule: "directed: same pair catalogue as C07 (A parked in backend, B issued): B must be answered while A is parked unless the File contract orders it after A; random: pipelined peers, adversarial tags, small reply pipe with slow reader, in half of the runs interspersed with well-delimited undecodable frames (unknown type, short body), whose Rlerror is a reply frame like any other. Wire monitor on the reply stream: every frame contiguous (single writer task), exactly one reply per decodable request with free tag, same tag, matching R-type or Rlerror, no unsolicited reply. Non-trivial/distinct as C07.",
 		Assume: []string{"undecodable frames and requests re-using an in-flight tag are exempt, as the statement says", "progress of B is asserted only while no write/global request is pending (RWMutex writer preference legitimately delays readers)"},
 		Real:   []string{"p9.Server", "p9 path tree / fid table / handlers", "p9 wire codec"},
 		Stub:   []string{"transport (simnet pipes)", "backend tree (simfs)", "raw 9P peer (refcodec)"},
